@@ -179,7 +179,28 @@ func (e StdEng) SelectByIndicesB(input, outGrad, indices Tensor, axis int, opts 
 		return
 	}
 
-	e.selectByIndicesB(axis, getInts(indices), typ, dataB, dataReuse, outGrad.(*Dense).AP, reuse.(*Dense).AP)
+	// the kernel below walks both tensors as contiguous row-major blocks and trusts the indices
+	idxs := getInts(indices)
+	if axis < 0 || axis >= input.Dims() {
+		return nil, errors.Errorf(invalidAxis, axis, input.Dims())
+	}
+	if !input.DataOrder().IsRowMajor() || !outGrad.DataOrder().IsRowMajor() || !reuse.DataOrder().IsRowMajor() {
+		return nil, errors.Errorf(methodNYI, "SelectByIndicesB", "column-major tensors")
+	}
+	expectedGrad := input.Shape().Clone()
+	expectedGrad[axis] = len(idxs)
+	if !outGrad.Shape().Eq(expectedGrad) || outGrad.Shape().TotalSize() != expectedGrad.TotalSize() {
+		return nil, errors.Errorf(shapeMismatch, expectedGrad, outGrad.Shape())
+	}
+	if !reuse.Shape().Eq(input.Shape()) || reuse.Dims() != input.Dims() {
+		return nil, errors.Errorf(shapeMismatch, input.Shape(), reuse.Shape())
+	}
+	for _, idx := range idxs {
+		if idx < 0 || idx >= input.Shape()[axis] {
+			return nil, errors.Errorf(indexOOBAxis, idx, axis, input.Shape()[axis])
+		}
+	}
+	e.selectByIndicesB(axis, idxs, typ, dataB, dataReuse, outGrad.(*Dense).AP, reuse.(*Dense).AP)
 
 	return reuse, nil
 }
@@ -189,63 +210,17 @@ func (e StdEng) iterSelectByIndicesB(axis int, dataB, dataGradA *storage.Header,
 }
 
 func (e StdEng) selectByIndicesB(axis int, indices []int, typ reflect.Type, dataB, dataGradA *storage.Header, apB, apRet AP) {
-	isInnermost := axis == apB.shape.Dims()-1
-
-	outer := ProdInts(apB.shape[:axis])
-
-	axStride := apB.strides[axis]
-	retStride := apRet.strides[axis]
-	var outerRetStride int
-	if axis == 0 {
-		outerRetStride = apRet.strides[axis] * 2
-	} else {
-		outerRetStride = apRet.strides[axis-1]
-	}
-
-	dstCoord := make([]int, apB.shape.Dims())
-	srcCoord := make([]int, apRet.shape.Dims())
-
-	if isInnermost {
-		prevAxis := axis - 1
-		if prevAxis < 0 {
-			// this may be the case if input is a vector
-			prevAxis = 0
-		}
-		retPrevStride := apB.strides[prevAxis]
-		prevStride := apRet.strides[prevAxis]
+	// gradA[o, idx, :] += outGrad[o, i, :] for every outer block o and every (i, idx) of indices. Both tensors are
+	// contiguous and row-major here (SelectByIndicesB has checked), so a block is a run of `inner` elements.
+	outer := ProdInts(apRet.shape[:axis])
+	inner := ProdInts(apRet.shape[axis+1:])
+	retBlock := apRet.shape[axis] * inner
+	bBlock := len(indices) * inner
+	for o := 0; o < outer; o++ {
 		for i, idx := range indices {
-			dstCoord[axis] = idx
-			srcCoord[axis] = i
-			dstStart, _ := Ltoi(apB.shape, apB.strides, dstCoord...)
-			start, _ := Ltoi(apRet.shape, apRet.strides, srcCoord...)
-			for o := 0; o < outer; o++ {
-				dstEnd := dstStart + axStride
-				end := start + retStride
-
-				e.E.AddSliced(typ, dataGradA, dstStart, dstEnd, dataB, start, end)
-
-				dstStart += prevStride
-				start += retPrevStride
-
-			}
-		}
-		return
-	}
-
-	for i, idx := range indices {
-		dstCoord[axis] = idx
-		srcCoord[axis] = i
-		dstStart, _ := Ltoi(apRet.shape, apRet.strides, dstCoord...)
-		start, _ := Ltoi(apB.shape, apB.strides, srcCoord...)
-
-		for o := 0; o < outer; o++ {
-			dstEnd := dstStart + axStride
-			end := start + retStride
-
-			e.E.AddSliced(typ, dataGradA, dstStart, dstEnd, dataB, start, end)
-
-			dstStart = dstEnd + axStride
-			start = end + (outerRetStride - retStride)
+			dstStart := o*retBlock + idx*inner
+			start := o*bBlock + i*inner
+			e.E.AddSliced(typ, dataGradA, dstStart, dstStart+inner, dataB, start, start+inner)
 		}
 	}
 }
